@@ -1,6 +1,7 @@
 package main
 
 import (
+	"sort"
 	"bytes"
 	"encoding/json"
 	"fmt"
@@ -110,6 +111,10 @@ func runBranch(c *Ctx, ec *engCase, batch bool, mask uint, onWait func(s flows.S
 			call := &engCall{Call: resumeCallName(spec), Sprint: sp, Err: err, Class: classOf(err)}
 			out = append(out, marshalCall(call, er.Session))
 		}
+		// the session as it is handed back at the end (waiting or not): the round trip is made of it as well (k = -1)
+		if onWait != nil && er.Session != nil {
+			onWait(er.Session, -1)
+		}
 	})
 	return out, ok
 }
@@ -150,6 +155,31 @@ func runC02(c *Ctx) {
 				d := ec.describe()
 				d["at_wait"], d["json1"], d["json2"] = k, truncate(string(b1), 3000), truncate(string(b2), 3000)
 				c.Fail("monitor", "M-roundtrip", "marshal-read-marshal-differs", "marshalling a session, reading it back and marshalling again gives different JSON", d)
+			}
+			// what the host can ask of the session it has just read back: the same as of the one it kept
+			show := func(x flows.Session) (out string) {
+				defer func() {
+					if r := recover(); r != nil {
+						out = fmt.Sprintf("panic: %v", r)
+					}
+				}()
+				cx := x.CurrentContext()
+				if cx == nil {
+					return "<no context>"
+				}
+				props := cx.Properties()
+				sort.Strings(props)
+				return strings.Join(props, ",")
+			}
+			c.Count("check:M-roundtrip-context")
+			if live, restored := show(s), show(s2); live != restored {
+				d := ec.describe()
+				d["at_wait"], d["context_of_kept_session"], d["context_of_restored_session"] = k, truncate(live, 300), truncate(restored, 300)
+				sig := "restored-context-differs"
+				if strings.HasPrefix(restored, "panic:") {
+					sig = "restored-context-panics"
+				}
+				c.Fail("monitor", "M-roundtrip", sig, "the current context of a session read back differs from that of the session kept in memory", d)
 			}
 		})
 		if !ok || len(ref) == 0 {
